@@ -134,7 +134,7 @@ for D in (1, 2):
                        ('every element in both the old and the new extents keeps its value', 'IMPLIES((%s) > 0, %s)' % (Nx, kept(D)))] +
                       ([('every other element equals the fill value', 'IMPLIES((%s) > 0, %s)' % (Nx, others(D, 'v')))] if fill else []),
               covers=['x0 > g_a0 && g_a0 > 0', 'x0 < g_a0 && x0 > 0', '(%s) == 0 && (%s) > 0' % (Nx, Na), '(%s) == 0 && (%s) > 0' % (Na, Nx)], assigns=['*a'], **COMMON,
-              tier='quick' if D == 1 or fill else 'thorough')
+              tier='quick')
     # ---------------------------------------------------------------- copy construction and element access
     Check('F%d_copy_ctor' % D, ['C11'], params=['out', 'a'], fn='w_F%d_copy_ctor' % D,
           wrapper=('void', 'FA<%d>* out, FA<%d> const* a' % (D, D), 'new(out) FA<%d>(*a);' % D),
